@@ -127,7 +127,15 @@ Definition wire_name (d : chars * option chars) : chars :=
   match snd d with Some a => a | None => fst d end.
 
 (* ---- enums.py: the member name of an enum value (keyword suffix only; no trimming, no snake-casing) ---- *)
-Definition enum_member (v : chars) : chars := suffix_if (iskeyword v) v.
+(* utils.enum_member_name: keywords, "mro" and Enum's _sunder_ names get a trailing underscore *)
+Definition is_sunder (v : chars) : bool :=
+  match v, rev v with
+  | a :: b :: _ :: _, z :: y :: _ => is_us a && is_us z && negb (is_us b) && negb (is_us y)
+  | _, _ => false
+  end.
+Definition enum_renamed (v : chars) : bool :=
+  iskeyword v || chars_eqb v (s2l "mro") || is_sunder v.
+Definition enum_member (v : chars) : chars := suffix_if (enum_renamed v) v.
 
 (* ---- sexp interface ---- *)
 Local Open Scope string_scope.
